@@ -1,6 +1,6 @@
 ---------------------------- MODULE MC_Health ----------------------------
 EXTENDS Health, Json
-MCCfgSet == [n : {2}, ft : {1, 2}, sth : {1, 2}, strat : {"first", "rr", "prefer"}]
+MCCfgSet == [n : {1, 2}, ft : {1, 2}, sth : {1, 2}, strat : {"first", "rr", "prefer"}, trig : {0, 1}]
 MCResults == {"h", "d", "u", "k", "s"}
 Bound == \A r \in Res : cnt[r] <= 3
 =============================================================================
